@@ -93,7 +93,7 @@ pub fn pool_str(p: &PoolInfo) -> String {
     let (ty, amp) = match p.pool_type { PoolType::ConstantProduct => ("cp", 0), PoolType::StableSwap { amp } => ("ss", amp) };
     let mut s = format!("{} {} {}", ty, amp, p.assets.len());
     for (i, a) in p.assets.iter().enumerate() {
-        s += &format!(" {} {} {}", a.denom, p.asset_decimals[i], a.amount);
+        s += &format!(" {} {} {}", a.denom, p.asset_decimals.get(i).copied().unwrap_or(255), a.amount);   // (255: a stored pool with fewer decimals entries than assets — C16 forbids it, the monitors report it; the harness must not fall over)
     }
     s + " " + &fees_str(&p.pool_fees)
 }
